@@ -232,8 +232,9 @@ PROPS = {
         "trusted_base": [
             "modelled, not verified: bufio.Scanner line splitting (64 KiB limit) and the easyjson decoder of IPPort as a line classifier (badJson | tooLong | entry(ip?, port)); net.ParseIP as an abstract outcome; cidranger as list membership",
         ],
-        "assumptions": ["one error per *reading* of the list: the address x ports mode re-reads the list once per port (see DESIGN.md C13)"],
-        "level_text": "Lean theorems C13_pairs/C13_addrs (generator output = per-line expectation of the lines handled, for every list of lines), C13_filter_stage/C13_cache_stage/C13_errors_survive (optional stages are per-request and pass errors through untouched, for every request list), C13_pipeline_* (the composition the commands build). Tied to the code by running the real generators, the real --exclude parser and the real ARP-cache stage on generated target files (gen component), with the Spec reference evaluated on the observed requests.",
+        "assumptions": ["one error per *reading* of the list: the address x ports mode re-reads the list once per port (see DESIGN.md C13)",
+                        "error-stream theorems (C13_error_stream_*): the engine run is not cancelled and has terminated with the error stream drained (packet side) / reached `done` (generic side); the receiver reports receiver errors (RcvErrsOK); the ARP-cache stage's own noMAC errors (good entries without a MAC, C11) are set aside"],
+        "level_text": "Lean theorems C13_pairs/C13_addrs (generator output = per-line expectation of the lines handled, for every list of lines), C13_filter_stage/C13_cache_stage/C13_errors_survive (optional stages are per-request and pass errors through untouched, for every request list), C13_pipeline_* (the composition the commands build), and at the engines' error streams C13_error_stream_pairs / _addrs (C13 o C07 over Compose.pipeReqs: for every list of lines, stage stack, link mode, filler, draw family, worker count N >= 1, failure pattern and every terminated uncancelled interleaving, the request-error records consumed from the merged error stream carry exactly the causes of the bad entries handled, one each, and the frames handed to the writer are exactly those Fill built for the requests without error, whose targets are targets of good entries) and C13_error_stream_generic (C13 o C08 over Compose.engReqs: no Scan call is ever made for a request that carries an error; at `done` the errors sent carry exactly the bad entries' causes, one each; logged = sent once the drain returned). Tied to the code by running the real generators, the real --exclude parser and the real ARP-cache stage on generated target files (gen component), with the Spec reference evaluated on the observed requests.",
         "level_note": "Trusted: Lean kernel; the line classifier abstraction of easyjson/bufio (validated by the harness writing real JSONL text for every class, incl. textual variants); channel plumbing is M-conc's concern (a stage is its list function).",
     },
     "C01": {
@@ -244,9 +245,12 @@ PROPS = {
             "modelled, not verified: generators as the list they send before closing (channel plumbing is M-conc, C07/C08); cidranger as list membership; net.ParseIP / easyjson / bufio as a line classifier; os.Stdin through the buffering opener as a constant file",
             "chunk loop of startPortScanEngine tied by sxfacts (loop header, body statements and the empty-ranges branch are matched textually; any other shape is a translator problem that breaks Props/C01.translator_clean)",
         ],
-        "assumptions": ["'puts on the wire' is closed by C07 (packet commands) and C08 (application commands): this check proves coverage at the request stream",
+        "assumptions": ["'puts on the wire' is a theorem (C01_wire_port_scan / C01_wire_ip_scan / C01_scan_targets = C01 o C05 o C07 and C01 o C08 over the embeddings of Model/Compose.lean); its remaining hypotheses: the engine run is not cancelled and comes to its end (all goroutines returned or `done` closed; progress is C07_progress_full / C12, fairness is the runtime's)",
+                        "hv4: the denoted, non-excluded targets are IPv4 addresses (a theorem for subnet sources, C01_wire_subnet_ipv4; for a target file a condition on its content: a non-IPv4 line becomes a Fill error, not a probe)",
+                        "hmac: on an Ethernet link the IP probes (tcp/udp/icmp) pass through the ARP-cache stage; a target with neither a cache entry nor a gateway MAC becomes a noMAC error request, which is not a probe (frames = probes of the stream; = denoted minus excluded when a gateway MAC is known or the link is a VPN)",
+                        "LinkOK / FillerOK / RndOK: 4-byte source address and 6-byte source MAC from the scan range (C17), option values in the ranges the flag parsers enforce (C18), math/rand draws in the regenerated ranges (C05_draws); 'handed to the writer' = 'on the wire' for the writes that did not fail (C01_wire_no_write_failure)",
                         "a regular file yields the same content on every open"],
-        "level_text": "Lean theorems C01_port_scan / C01_generic / C01_ip_scan / C01_chunks: for every valid specification (any subnet /0../32, any valid port-range list with any number of chunks, pairs file, address file x ranges incl. stdin), every exclusion list, every ARP cache and every family of random draws, the engine runs of one pass request exactly the denoted (address, port) multiset minus exclusions (List.Perm), built on C04's permutation theorem. chunkSize and the empty-ranges branch are regenerated from root.go each run. The generator models are tied to the code by running the real newIPPortGenerator compositions and whole ScanMethods (down to frames) on generated specifications.",
+        "level_text": "Lean theorems C01_port_scan / C01_generic / C01_ip_scan / C01_chunks: for every valid specification (any subnet /0../32, any valid port-range list with any number of chunks, pairs file, address file x ranges incl. stdin), every exclusion list, every ARP cache and every family of random draws, the engine runs of one pass request exactly the denoted (address, port) multiset minus exclusions (List.Perm), built on C04's permutation theorem. At the wire: C01_wire_port_scan (tcp/udp) and C01_wire_ip_scan (icmp/arp) compose this with C05 and C07 over the embedding Compose.pipeReqs (error request -> error request, probe -> ok request whose frame is the model filler's output, refused probe -> fill error): for every link mode, filler, draw family, worker count N >= 1, writer failure pattern and every interleaving of every engine run of the pass that is not cancelled and has ended, the (destination address, destination port) pairs read with the independent RFC readers of Spec/Fill off the byte strings handed to WritePacketData are, as a multiset and with every frame readable, the probes of the pass = the denoted multiset minus exclusions (hypotheses hv4, hmac listed under assumptions). C01_scan_targets composes C01_generic with C08_scan_once / C08_complete over Compose.engReqs: for every worker count, oracle and schedule without Ctrl-C the targets handed to Scan are at every moment a sub-multiset of, and at `done` exactly, the denoted multiset minus exclusions. chunkSize and the empty-ranges branch are regenerated from root.go each run. The generator models are tied to the code by running the real newIPPortGenerator compositions and whole ScanMethods (down to frames) on generated specifications.",
         "level_note": "Trusted: Lean kernel + Mathlib (via C04); sxfacts for the loop shape; correspondence of hand-written generator models validated by sxdiff gen (differential, multiset level for randomised orders).",
     },
     "C02": {
@@ -298,7 +302,7 @@ PROPS = {
         ],
         "assumptions": ["sync.RWMutex meets its contract (concurrent Gets of an unchanging map return the stored value)",
                         "the vendor table lookup returns some string (any bytes allowed)"],
-        "level_text": "Lean theorems C11_ip_roundtrip / C11_mac_roundtrip (dotted-quad and MAC rendering parse back for all 2^32 / 2^48 values, by structure of the digit rendering), C11_line_loads (the line printed for any ARP reply, with any vendor string, is accepted by the loader and yields exactly {printed address -> printed MAC}; built on C14's ARP-line theorem), C11_load_in_order / C11_last_wins (either spelling), C11_unknown_fields_skipped, C11_stage_choice / C11_never_foreign_mac (own entry, else gateway, else error; error requests untouched) and C11_cache_immutable_during_scan over writer facts regenerated from the tree. Tied to the code by ARP replies through the real processor -> real MarshalJSON -> real FillCache -> real NewCacheRequestGenerator, and by random cache files with duplicates, ::ffff: spellings, extra/null/repeated fields and malformed addresses.",
+        "level_text": "Lean theorems C11_ip_roundtrip / C11_mac_roundtrip (dotted-quad and MAC rendering parse back for all 2^32 / 2^48 values, by structure of the digit rendering), C11_line_loads (the line printed for any ARP reply, with any vendor string, is accepted by the loader and yields exactly {printed address -> printed MAC}; built on C14's ARP-line theorem), C11_printed_line_loads (C11 o C06: for every byte string and every prior decoder state, a record emitted by the ARP processor model comes from a frame that itself holds the 1/0x0800/6/4 Ethernet->ARP chain, renders to a line, and fillCache loads that line as exactly {sender protocol address of that frame -> sender hardware address of that frame}), C11_load_in_order / C11_last_wins (either spelling), C11_unknown_fields_skipped, C11_stage_choice / C11_never_foreign_mac (own entry, else gateway, else error; error requests untouched) and C11_cache_immutable_during_scan over writer facts regenerated from the tree. Tied to the code by ARP replies through the real processor -> real MarshalJSON -> real FillCache -> real NewCacheRequestGenerator, and by random cache files with duplicates, ::ffff: spellings, extra/null/repeated fields and malformed addresses.",
         "level_note": "Trusted: Lean kernel; the stdlib parser/printer models and the jlexer abstraction are validated differentially, not proved; concurrency is reduced to immutability of the cache after option parsing (generated fact) plus the RWMutex contract; -race run not included.",
     },
     "C14": {
